@@ -27,7 +27,8 @@ Fixpoint nsc (s : cstmt) : nat :=
   | CFor _ _ body => 2 + nsc_list body
   | CRange body => 1 + nsc_list body
   | CSwitch _ cs | CTSwitch cs | CSelect cs => 1 + nsc_clauses cs
-  | CClosure body => 1 + nsc_list body
+  | CClosure _ body => 1 + nsc_list body
+  | CInline body => 1 + nsc_list body
   | _ => 0
   end
 with nsc_list (l : cstmts) : nat := match l with CNil => 0 | CCons s r => nsc s + nsc_list r end
@@ -42,7 +43,8 @@ Fixpoint nfc (s : cstmt) : nat :=
   | CBlock l | CFor _ _ l | CRange l => nfc_list l
   | CIf body els => nfc_list body + nfc_else els
   | CSwitch _ cs | CTSwitch cs | CSelect cs => nfc_clauses cs
-  | CClosure body => 1 + nfc_list body
+  | CClosure _ body => 1 + nfc_list body
+  | CInline body => 1 + nfc_list body
   | _ => 0
   end
 with nfc_list (l : cstmts) : nat := match l with CNil => 0 | CCons s r => nfc s + nfc_list r end
@@ -52,16 +54,16 @@ with nfc_else (e : celse) : nat :=
   match e with ENone => 0 | EBlock l => nfc_list l | EIf s => nfc s end.
 
 Section Steps.
-Variables (b sc f : nat) (sv : list frame) (ns nf : nat).
-Notation S0 := (mkSt b b sc f sv ns nf).
-Notation S1 := (mkSt (S b) b sc f sv ns nf).
-Notation S2 := (mkSt (S (S b)) b sc f sv ns nf).
-Notation S3 := (mkSt (S (S (S b))) b sc f sv ns nf).
+Variables (b sc f l : nat) (sv : list frame) (ns nf : nat).
+Notation S0 := (mkSt b b sc f l sv ns nf).
+Notation S1 := (mkSt (S b) b sc f l sv ns nf).
+Notation S2 := (mkSt (S (S b)) b sc f l sv ns nf).
+Notation S3 := (mkSt (S (S (S b))) b sc f l sv ns nf).
 
-Ltac t := cbn [bstep]; unfold pop, push, open; cbn [obind stk base scope fn saved nscope nfn];
+Ltac t := cbn [bstep]; unfold pop, push, open; cbn [obind stk base scope fn nlab saved nscope nfn];
   repeat match goal with |- context [?x <=? ?y] =>
     destruct (Nat.leb_spec x y); [|exfalso; cbn in *; lia] end;
-  cbn [obind stk base scope fn saved nscope nfn]; unfold push, open; cbn [obind stk base scope fn saved nscope nfn]; repeat f_equal; try lia.
+  cbn [obind stk base scope fn nlab saved nscope nfn]; unfold push, open; cbn [obind stk base scope fn nlab saved nscope nfn]; repeat f_equal; try lia.
 
 Lemma st_push0 : bstep S0 OPush = Some S1. Proof. reflexivity. Qed.
 Lemma st_push1 : bstep S1 OPush = Some S2. Proof. reflexivity. Qed.
@@ -86,33 +88,42 @@ Lemma st_thenall1 : bstep S1 OThenAll = Some S0.
 Proof. cbn [bstep stk base]. replace (S b - b) with 1 by lia. t. Qed.
 Lemma st_thenall0 : bstep S0 OThenAll = Some S0.
 Proof. cbn [bstep stk base]. replace (b - b) with 0 by lia. t. Qed.
-Lemma st_open : bstep S0 OOpen = Some (mkSt b b ns f (mkFrame b sc f :: sv) (S ns) nf).
+Lemma st_open : bstep S0 OOpen = Some (mkSt b b ns f l (mkFrame b sc f l :: sv) (S ns) nf).
 Proof. reflexivity. Qed.
-Lemma st_openfn : bstep S0 OOpenFn = Some (mkSt b b ns nf (mkFrame b sc f :: sv) (S ns) (S nf)).
+Lemma st_openfn : bstep S0 OOpenFn = Some (mkSt b b ns nf 0 (mkFrame b sc f l :: sv) (S ns) (S nf)).
 Proof. reflexivity. Qed.
-Lemma st_thenopen : bstep S1 OThenOpen = Some (mkSt b b ns f (mkFrame b sc f :: sv) (S ns) nf).
+Lemma st_newlabel : bstep S0 ONewLabel = Some (mkSt b b sc f (S l) sv ns nf).
+Proof. reflexivity. Qed.
+Lemma st_inlinestart : bstep S2 (OInlineStart 1) = Some (mkSt (S b) (S b) ns nf 0 (mkFrame b sc f l :: sv) (S ns) (S nf)).
+Proof. t. Qed.
+Lemma st_dummy : True.
+Proof. reflexivity. Qed.
+Lemma st_thenopen : bstep S1 OThenOpen = Some (mkSt b b ns f l (mkFrame b sc f l :: sv) (S ns) nf).
 Proof. t. Qed.
 End Steps.
 
 Section Closes.
-Variables (b sc f b0 sc0 f0 : nat) (sv : list frame) (ns nf : nat).
+Variables (b sc f l b0 sc0 f0 l0 : nat) (sv : list frame) (ns nf : nat).
 Lemma st_close :
-  bstep (mkSt b b sc f (mkFrame b0 sc0 f0 :: sv) ns nf) OClose = Some (mkSt b b0 sc0 f0 sv ns nf).
+  bstep (mkSt b b sc f l (mkFrame b0 sc0 f0 l0 :: sv) ns nf) OClose = Some (mkSt b b0 sc0 f0 l sv ns nf).
 Proof. reflexivity. Qed.
 Lemma st_closefn :
-  bstep (mkSt b b sc f (mkFrame b0 sc0 f0 :: sv) ns nf) OCloseFn = Some (mkSt b b0 sc0 f0 sv ns nf).
+  bstep (mkSt b b sc f l (mkFrame b0 sc0 f0 l0 :: sv) ns nf) OCloseFn = Some (mkSt b b0 sc0 f0 l0 sv ns nf).
 Proof. reflexivity. Qed.
 Lemma st_closefnpush :
-  bstep (mkSt b b sc f (mkFrame b0 sc0 f0 :: sv) ns nf) OCloseFnPush = Some (mkSt (S b) b0 sc0 f0 sv ns nf).
+  bstep (mkSt b b sc f l (mkFrame b0 sc0 f0 l0 :: sv) ns nf) OCloseFnPush = Some (mkSt (S b) b0 sc0 f0 l0 sv ns nf).
+Proof. reflexivity. Qed.
+Lemma st_inlineend :
+  bstep (mkSt b b sc f l (mkFrame b0 sc0 f0 l0 :: sv) ns nf) (OInlineEnd 1) = Some (mkSt (S b) b0 sc0 f0 l0 sv ns nf).
 Proof. reflexivity. Qed.
 Lemma st_else :
-  bstep (mkSt b b sc f (mkFrame b0 sc0 f0 :: sv) ns nf) OElse =
-  Some (mkSt b b ns f0 (mkFrame b0 sc0 f0 :: sv) (S ns) nf).
+  bstep (mkSt b b sc f l (mkFrame b0 sc0 f0 l0 :: sv) ns nf) OElse =
+  Some (mkSt b b ns f0 l (mkFrame b0 sc0 f0 l :: sv) (S ns) nf).
 Proof. reflexivity. Qed.
-Variables (b1 sc1 f1 : nat).
+Variables (b1 sc1 f1 l1 : nat).
 Lemma st_close2 :
-  bstep (mkSt b b sc f (mkFrame b0 sc0 f0 :: mkFrame b1 sc1 f1 :: sv) ns nf) OClose2 =
-  Some (mkSt b0 b1 sc1 f1 sv ns nf).
+  bstep (mkSt b b sc f l (mkFrame b0 sc0 f0 l0 :: mkFrame b1 sc1 f1 l1 :: sv) ns nf) OClose2 =
+  Some (mkSt b0 b1 sc1 f1 l sv ns nf).
 Proof. reflexivity. Qed.
 End Closes.
 
@@ -122,32 +133,45 @@ Ltac sx :=
                 | rewrite st_stmt2 | rewrite st_end1 | rewrite st_nop0 | rewrite st_thenpop
                 | rewrite st_thenall1 | rewrite st_thenall0 | rewrite st_open | rewrite st_openfn
                 | rewrite st_thenopen | rewrite st_close | rewrite st_closefn | rewrite st_closefnpush
-                | rewrite st_else | rewrite st_close2 ];
+                | rewrite st_else | rewrite st_close2 | rewrite st_newlabel | rewrite st_inlinestart | rewrite st_inlineend ];
           cbn [obind run app]).
 
-Definition fin (b sc f : nat) (sv : list frame) (ns nf : nat) (ds df : nat) : option bst :=
-  Some (mkSt b b sc f sv (ns + ds) (nf + df)).
+Definition fin (b sc f l : nat) (sv : list frame) (ns nf : nat) (ds df : nat) : option bst :=
+  Some (mkSt b b sc f l sv (ns + ds) (nf + df)).
 
-Lemma fin_eq b sc f sv ns nf ds df ns' nf' :
-  ns' = ns + ds -> nf' = nf + df -> Some (mkSt b b sc f sv ns' nf') = fin b sc f sv ns nf ds df.
+Lemma fin_eq b sc f l sv ns nf ds df ns' nf' :
+  ns' = ns + ds -> nf' = nf + df -> Some (mkSt b b sc f l sv ns' nf') = fin b sc f l sv ns nf ds df.
 Proof. intros -> ->. reflexivity. Qed.
+
+Lemma run_newlabels n rest b sc f l sv ns nf :
+  run (repeat ONewLabel n ++ rest) (mkSt b b sc f l sv ns nf) = run rest (mkSt b b sc f (n + l) sv ns nf).
+Proof.
+  revert l; induction n as [|n IH]; intros l; [reflexivity|].
+  cbn [repeat app run]. rewrite st_newlabel. cbn [obind]. rewrite IH. f_equal. f_equal. lia.
+Qed.
+
+Lemma run_newlabels0 n b sc f l sv ns nf :
+  run (repeat ONewLabel n) (mkSt b b sc f l sv ns nf) = Some (mkSt b b sc f (n + l) sv ns nf).
+Proof.
+  rewrite <- (app_nil_r (repeat ONewLabel n)), run_newlabels. reflexivity.
+Qed.
 
 Ltac ih H := rewrite H; unfold fin at 1; cbn [obind].
 
 Definition P_stmt (s : cstmt) : Prop :=
-  forall b sc f sv ns nf, run (compile s) (mkSt b b sc f sv ns nf) = fin b sc f sv ns nf (nsc s) (nfc s).
+  forall b sc f l sv ns nf, run (compile s) (mkSt b b sc f l sv ns nf) = fin b sc f l sv ns nf (nsc s) (nfc s).
 Definition P_list (l : cstmts) : Prop :=
-  forall b sc f sv ns nf, run (compile_list l) (mkSt b b sc f sv ns nf) = fin b sc f sv ns nf (nsc_list l) (nfc_list l).
+  forall b sc f lb sv ns nf, run (compile_list l) (mkSt b b sc f lb sv ns nf) = fin b sc f lb sv ns nf (nsc_list l) (nfc_list l).
 Definition P_clauses (cs : cclauses) : Prop :=
-  forall which b sc f sv ns nf,
-    run (compile_clauses which cs) (mkSt b b sc f sv ns nf) = fin b sc f sv ns nf (nsc_clauses cs) (nfc_clauses cs).
+  forall which b sc f l sv ns nf,
+    run (compile_clauses which cs) (mkSt b b sc f l sv ns nf) = fin b sc f l sv ns nf (nsc_clauses cs) (nfc_clauses cs).
 (* an else part runs inside the body block of the if statement (frame F0 on top)
    and leaves the builder inside a block with the same saved frame *)
 Definition P_else (e : celse) : Prop :=
-  forall b sc f b0 sc0 sv ns nf,
+  forall b sc f l b0 sc0 sv ns nf,
   exists sc',
-    run (compile_else e) (mkSt b b sc f (mkFrame b0 sc0 f :: sv) ns nf) =
-    fin b sc' f (mkFrame b0 sc0 f :: sv) ns nf (nsc_else e) (nfc_else e).
+    run (compile_else e) (mkSt b b sc f l (mkFrame b0 sc0 f l :: sv) ns nf) =
+    fin b sc' f l (mkFrame b0 sc0 f l :: sv) ns nf (nsc_else e) (nfc_else e).
 
 Lemma balanced_all :
   (forall s, P_stmt s) /\ (forall l, P_list l) /\ (forall cs, P_clauses cs) /\ (forall e, P_else e).
@@ -164,27 +188,29 @@ Proof.
   - sx. apply fin_eq; lia.
   - sx. apply fin_eq; lia.
   - sx. apply fin_eq; lia.
+  - sx. apply fin_eq; lia.
   - destruct with_value; sx; apply fin_eq; lia.
   - sx. apply fin_eq; lia.
   - (* CLabeled *) destruct placed; sx; apply H.
   - (* CBlock *) sx. ih H. sx. apply fin_eq; lia.
   - (* CIf *) unfold cond_ops. sx. ih H. rewrite run_app.
-    match goal with |- context [run (compile_else els) (mkSt ?b1 ?b1 ?sc1 ?f1 (mkFrame ?b0 ?sc0 ?f1 :: ?sv1) ?ns1 ?nf1)] =>
-      destruct (H0 b1 sc1 f1 b0 sc0 sv1 ns1 nf1) as (sc' & R) end.
+    match goal with |- context [run (compile_else els) (mkSt ?b1 ?b1 ?sc1 ?f1 ?l1 (mkFrame ?b0 ?sc0 ?f1 ?l1 :: ?sv1) ?ns1 ?nf1)] =>
+      destruct (H0 b1 sc1 f1 l1 b0 sc0 sv1 ns1 nf1) as (sc' & R) end.
     ih R. sx. apply fin_eq; lia.
   - (* CFor *) destruct cond; sx; ih H; destruct post; sx; apply fin_eq; lia.
   - (* CRange *) sx. ih H. sx. apply fin_eq; lia.
   - (* CSwitch *) sx. ih H. sx. apply fin_eq; lia.
   - (* CTSwitch *) sx. ih H. sx. apply fin_eq; lia.
   - (* CSelect *) sx. ih H. sx. apply fin_eq; lia.
-  - (* CClosure *) sx. ih H. sx. apply fin_eq; lia.
+  - (* CClosure *) sx. rewrite run_newlabels0. cbn [obind]. sx. ih H. sx. apply fin_eq; lia.
+  - (* CInline *) sx. ih H. sx. apply fin_eq; lia.
   - (* CNil *) cbn [run]. apply fin_eq; lia.
   - (* CCons *) sx. ih H. ih H0. apply fin_eq; lia.
   - (* CCNil *) cbn [run]. apply fin_eq; lia.
   - (* CCCons *)
     assert (Hh : run (case_head which default ++ [case_then which])
-                     (mkSt b b ns f (mkFrame b sc f :: sv) (S ns) nf) =
-                 Some (mkSt b b ns f (mkFrame b sc f :: sv) (S ns) nf)).
+                     (mkSt b b ns f l (mkFrame b sc f l :: sv) (S ns) nf) =
+                 Some (mkSt b b ns f l (mkFrame b sc f l :: sv) (S ns) nf)).
     { destruct default; [destruct which as [|[|[|[|w]]]]; cbn [case_head case_then app]; sx; reflexivity|].
       destruct which as [|[|[|[|w]]]]; cbn [case_head case_then app]; sx; reflexivity. }
     rewrite run_cons, st_open. cbn [obind].
@@ -197,19 +223,19 @@ Qed.
 
 (* every completed statement leaves the stack at the enclosing block's base and
    restores scope, function and the chain of saved contexts *)
-Theorem stmt_balanced s b sc f sv ns nf :
-  run (compile s) (mkSt b b sc f sv ns nf) = Some (mkSt b b sc f sv (ns + nsc s) (nf + nfc s)).
+Theorem stmt_balanced s b sc f l sv ns nf :
+  run (compile s) (mkSt b b sc f l sv ns nf) = Some (mkSt b b sc f l sv (ns + nsc s) (nf + nfc s)).
 Proof. apply balanced_all. Qed.
 
-Theorem list_balanced l b sc f sv ns nf :
-  run (compile_list l) (mkSt b b sc f sv ns nf) = Some (mkSt b b sc f sv (ns + nsc_list l) (nf + nfc_list l)).
+Theorem list_balanced l b sc f lb sv ns nf :
+  run (compile_list l) (mkSt b b sc f lb sv ns nf) = Some (mkSt b b sc f lb sv (ns + nsc_list l) (nf + nfc_list l)).
 Proof. apply balanced_all. Qed.
 
-Theorem func_balanced body b sc f sv ns nf :
-  run (compile_func body) (mkSt b b sc f sv ns nf) =
-  Some (mkSt b b sc f sv (S ns + nsc_list body) (S nf + nfc_list body)).
+Theorem func_balanced nl body b sc f l sv ns nf :
+  run (compile_func nl body) (mkSt b b sc f l sv ns nf) =
+  Some (mkSt b b sc f l sv (S ns + nsc_list body) (S nf + nfc_list body)).
 Proof.
-  unfold compile_func. sx. rewrite list_balanced. cbn [obind]. sx. reflexivity.
+  unfold compile_func. sx. rewrite run_newlabels0. cbn [obind]. sx. rewrite list_balanced. cbn [obind]. sx. reflexivity.
 Qed.
 
 (* endBlockStmt truncates the operand stack to the block's base whatever the body left there *)
